@@ -50,7 +50,17 @@ def log(*a):
     print("[selib]", *a, file=sys.stderr, flush=True)
 
 
+_SHA = {}
+
+
 def sha(path):
+    """content hash, memoised per process (files do not change in a run)"""
+    if path not in _SHA:
+        _SHA[path] = _sha(path)
+    return _SHA[path]
+
+
+def _sha(path):
     h = hashlib.sha1()
     try:
         with open(path, "rb") as f:
@@ -105,11 +115,29 @@ def configure(cfg):
             "-DCMAKE_EXPORT_COMPILE_COMMANDS=ON"]
     args += ["-D%s=%s" % kv for kv in sorted(opts.items())]
     args += CONFIGS[cfg]
-    r = subprocess.run(args, capture_output=True, text=True)
-    if r.returncode != 0:
-        raise AnalysisBroken("cmake configure failed (%s):\n%s"
-                             % (cfg, (r.stdout + r.stderr)[-3000:]))
+    # skip the (2 s) configure when none of its inputs changed
+    h = hashlib.sha1(" ".join(args).encode())
+    inputs = []
+    for root, dirs, files in os.walk(REPO):
+        dirs[:] = [d for d in dirs if d not in ("_build", ".git", "docs",
+                                                "benchmarks", "binder")]
+        for fn in files:
+            if fn == "CMakeLists.txt" or fn.endswith((".cmake", ".in")):
+                inputs.append(os.path.join(root, fn))
+    for pth in sorted(inputs):
+        h.update(pth.encode())
+        h.update(sha(pth).encode())
+    stamp = os.path.join(bdir, ".verif-configure-stamp")
     dbp = os.path.join(bdir, "compile_commands.json")
+    cfgh = os.path.join(bdir, "symengine", "symengine_config.h")
+    if not (os.path.exists(stamp) and open(stamp).read() == h.hexdigest()
+            and os.path.exists(dbp) and os.path.exists(cfgh)):
+        r = subprocess.run(args, capture_output=True, text=True)
+        if r.returncode != 0:
+            raise AnalysisBroken("cmake configure failed (%s):\n%s"
+                                 % (cfg, (r.stdout + r.stderr)[-3000:]))
+        os.makedirs(bdir, exist_ok=True)
+        open(stamp, "w").write(h.hexdigest())
     if not os.path.exists(dbp):
         raise AnalysisBroken("no compile_commands.json")
     db = json.load(open(dbp))
@@ -149,19 +177,27 @@ def _dep_hash(deps, command, toolhash):
 
 
 def _extract_one(cfg, dbdir, entry, toolhash, force):
+    """content-addressed: <key>.<hash>.marshal, several versions are kept so
+    that reverting an edit costs nothing"""
+    import glob
     fdir = os.path.join(WORK, "facts", cfg)
     key = tu_key(entry["file"])
-    out = os.path.join(fdir, key + ".marshal")
-    meta = os.path.join(fdir, key + ".meta")
-    if not force and os.path.exists(out) and os.path.exists(meta):
-        try:
-            m = json.load(open(meta))
-            if m["hash"] == _dep_hash(m["deps"], entry["command"], toolhash):
-                return key, False, m
-        except Exception:
-            pass
-    tmp = os.path.join(fdir, key + ".json")
-    r = subprocess.run([TOOL_BIN, "-p", dbdir, "-o", tmp, entry["file"]],
+    if not force:
+        for meta in glob.glob(os.path.join(fdir, key + ".*.meta")):
+            try:
+                m = json.load(open(meta))
+                out = meta[:-5] + ".marshal"
+                if os.path.exists(out) and m["hash"] == _dep_hash(
+                        m["deps"], entry["command"], toolhash):
+                    os.utime(meta)
+                    m["file"] = out
+                    return key, False, m
+            except Exception:
+                pass
+    tmp = os.path.join(fdir, key + ".%d.json" % os.getpid())
+    r = subprocess.run([TOOL_BIN, "-p", dbdir,
+                        "--root=" + os.path.join(REPO, "symengine"),
+                        "-o", tmp, entry["file"]],
                        capture_output=True, text=True)
     if r.returncode != 0 or not os.path.exists(tmp):
         raise AnalysisBroken("sefacts failed on %s:\n%s"
@@ -175,12 +211,23 @@ def _extract_one(cfg, dbdir, entry, toolhash, force):
             if x.startswith(REPO + "/") or x.startswith(WORK + "/")
             or x.startswith(VERIF + "/")]
     d["deps"] = deps
+    h = _dep_hash(deps, entry["command"], toolhash)
+    out = os.path.join(fdir, "%s.%s.marshal" % (key, h[:16]))
     with open(out + ".tmp", "wb") as f:
         marshal.dump(d, f)
     os.replace(out + ".tmp", out)
-    m = {"deps": deps, "hash": _dep_hash(deps, entry["command"], toolhash),
-         "functions": len(d["functions"])}
-    json.dump(m, open(meta, "w"))
+    m = {"deps": deps, "hash": h, "functions": len(d["functions"])}
+    json.dump(m, open(out[:-8] + ".meta", "w"))
+    # keep at most 4 versions per TU
+    metas = sorted(glob.glob(os.path.join(fdir, key + ".*.meta")),
+                   key=os.path.getmtime)
+    for old in metas[:-4]:
+        for p in (old, old[:-5] + ".marshal"):
+            try:
+                os.unlink(p)
+            except OSError:
+                pass
+    m["file"] = out
     return key, True, m
 
 
@@ -240,20 +287,30 @@ def _load_program_locked(cfg, force):
     linkhash = hashlib.sha1(
         ("|".join("%s:%s" % (k, m["hash"]) for k, _, m in sorted(
             results, key=lambda r: r[0]))).encode()).hexdigest()
-    prog = os.path.join(fdir, "_program.marshal")
-    stamp = os.path.join(fdir, "_program.hash")
-    if fresh or not os.path.exists(prog) or not os.path.exists(stamp) \
-            or open(stamp).read() != linkhash:
-        P = link(fdir, keys)
+    prog = os.path.join(fdir, "_program.%s.marshal" % linkhash[:16])
+    stamp = prog + ".ok"
+    if not os.path.exists(prog) or not os.path.exists(stamp):
+        P = link([(k, m["file"]) for k, _, m in sorted(
+            results, key=lambda r: r[0])])
         P["extracted_now"] = fresh
         with open(prog + ".tmp", "wb") as f:
             marshal.dump(P, f)
         os.replace(prog + ".tmp", prog)
         open(stamp, "w").write(linkhash)
+        import glob
+        progs = sorted(glob.glob(os.path.join(fdir, "_program.*.marshal")),
+                       key=os.path.getmtime)
+        for old in progs[:-3]:
+            for p in (old, old + ".ok"):
+                try:
+                    os.unlink(p)
+                except OSError:
+                    pass
     else:
+        os.utime(prog)
         with open(prog, "rb") as f:
             P = marshal.load(f)
-        P["extracted_now"] = []
+        P["extracted_now"] = fresh
     P["cfg"] = cfg
     P["build_dir"] = bdir
     P["load_s"] = round(time.time() - t0, 2)
@@ -262,15 +319,15 @@ def _load_program_locked(cfg, force):
     return P
 
 
-def link(fdir, keys):
+def link(files):
     functions = {}
     decls = {}
     classes = {}
     globs = {}
     tus = []
     fn_tus = {}
-    for k in keys:
-        with open(os.path.join(fdir, k + ".marshal"), "rb") as f:
+    for k, path in files:
+        with open(path, "rb") as f:
             d = marshal.load(f)
         tus.append(d["tu"])
         for fn in d["functions"]:
